@@ -11,6 +11,7 @@ package app
 // and the coordination tree) before and after every iteration.
 
 import (
+	"encoding/json"
 	"fmt"
 	"slices"
 	"sort"
@@ -408,6 +409,21 @@ func c04Run(r *vt.Run, c c04Case) (points []sim.Point, devDesc string, found []c
 			if ap.Effect && ap.Call.Kind == "zk" && ap.Call.Op == "set" && ap.Call.Target == vns+"/active_nodes" && !w.Servers["h1"].Up {
 				r.Count("publications_with_master_down")
 				pubOverDead = true
+			}
+		})
+		// (d) at the instant of publication, faulted iteration or not: no member carries a recovery mark
+		w.OnApply = append(w.OnApply, func(ap *sim.Applied) {
+			if !ap.Effect || ap.Call.Kind != "zk" || ap.Call.Op != "set" || ap.Call.Target != vns+"/active_nodes" {
+				return
+			}
+			var pub []string
+			if json.Unmarshal(ap.Call.ZKReq.Data, &pub) != nil {
+				return
+			}
+			for _, host := range pub {
+				if host != h.MasterKey() && w.ZK.Exists(vns+"/recovery/"+host) {
+					violate("C04/4-list-never-contains-marked-for-recovery/at-publication", fmt.Sprintf("%s published the list %v although %s is marked for recovery; %s", ap.Call.Proc, pub, host, c))
+				}
 			}
 		})
 		h.MarkMonitor(func(host, detail string) {
